@@ -263,6 +263,21 @@ inline void c03_hand_seeds (std::vector<SeedFile> &v)
 		for (const char *id : { "MIDI", "AESD", "ID3 ", "CHAN" }) { auto c = iff_chunk (id, text_body ("\x00\x00\x00\x65\x00\x00\x00\x00\x00\x00\x00\x00", 24), be) ; extra.insert (extra.end (), c.begin (), c.end ()) ; }
 		if (iff_insert (f, "SSND", extra)) add.push_back ({ std::string (base) + "_hand_chunks", f, b->format, b->ch, true }) ;
 	}
+	// AIFF with two MARK chunks (the second a copy of the first, and one announcing 3000 markers) and two COMM chunks
+	for (const char *base : { "AIFF/PCM_24/FILE_ch1_richmark", "AIFF/PCM_16/FILE_ch2_richmark" }) if (const SeedFile *b = find (base))
+	{	for (auto &k : walk_iff (b->bytes)) if (k.id == "MARK" && k.data + k.size <= b->bytes.size ())
+		{	std::vector<uint8_t> mk (b->bytes.begin () + (long) k.hdr, b->bytes.begin () + (long) (k.data + k.size + (k.size & 1))) ;
+			std::vector<uint8_t> f1 = b->bytes ; if (iff_insert (f1, "SSND", mk)) add.push_back ({ std::string (base) + "_hand_mark_twice", f1, b->format, b->ch, true }) ;
+			std::vector<uint8_t> mk2 = mk ; if (mk2.size () >= 10) { mk2 [8] = 0x0b ; mk2 [9] = 0xb8 ; }	// count 3000
+			std::vector<uint8_t> f2 = b->bytes ; if (iff_insert (f2, "SSND", mk2)) add.push_back ({ std::string (base) + "_hand_mark_3000", f2, b->format, b->ch, true }) ;
+			break ;
+		}
+		for (auto &k : walk_iff (b->bytes)) if (k.id == "COMM" && k.data + k.size <= b->bytes.size ())
+		{	std::vector<uint8_t> cm (b->bytes.begin () + (long) k.hdr, b->bytes.begin () + (long) (k.data + k.size + (k.size & 1))) ;
+			std::vector<uint8_t> f3 = b->bytes ; if (iff_insert (f3, "SSND", cm)) add.push_back ({ std::string (base) + "_hand_comm_twice", f3, b->format, b->ch, true }) ;
+			break ;
+		}
+	}
 	// SVX: text chunks, CHAN, envelope chunks in front of BODY
 	for (const char *base : { "SVX/PCM_S8/FILE_ch1", "SVX/PCM_16/FILE_ch1" }) if (const SeedFile *b = find (base))
 	{	std::vector<uint8_t> f = b->bytes, extra ;
